@@ -1,8 +1,10 @@
 /-
-C05 — property theorems (clause 1: line numbers).
+C05 — property theorems: clause 1 (line numbers) from a sublist argument, and `sound`: every clause,
+for every text, by an invariant over the generator loop (accumulated output + abstract open paragraph).
 -/
 import DebInspector.Props.C05
 import DebInspector.Proofs.Deb822
+import DebInspector.Proofs.StrLemmas
 
 namespace Props.C05
 open Py Model.Deb822 Proofs.Deb822
@@ -38,5 +40,698 @@ example : model "License:\n\n text\x0cmore\njunk\nA: b\n".toList =
      [("a".toList, [(5, "b".toList)])]] := by decide +kernel
 example : holdsOn "License:\n\n text\x0cmore\njunk\nA: b\n".toList (model "License:\n\n text\x0cmore\njunk\nA: b\n".toList) = true := by
   decide +kernel
+
+
+/-! ### raw fields as the loop builds them -/
+
+def conts (src : List Str) (n cnt : Nat) : List NL :=
+  (List.range cnt).map fun i => ⟨n + 1 + i, rstrip (lineAt src (n + 1 + i))⟩
+
+def mkField (src : List Str) (n cnt : Nat) : Fld :=
+  ⟨normName (lineAt src n), ⟨n, declValue (lineAt src n)⟩ :: conts src n cnt⟩
+
+def mkFields (src : List Str) : Nat → List Nat → List Fld
+  | _, [] => []
+  | s, c :: cs => mkField src s c :: mkFields src (s + c + 1) cs
+
+def total : List Nat → Nat
+  | [] => 0
+  | c :: cs => c + 1 + total cs
+
+def declStarts (src : List Str) : Nat → List Nat → Prop
+  | _, [] => True
+  | s, c :: cs => isDecl (lineAt src s) = true ∧ declStarts src (s + c + 1) cs
+
+theorem total_append (a b : List Nat) : total (a ++ b) = total a + total b := by
+  induction a with
+  | nil => simp [total]
+  | cons c cs ih => simp [total, ih]; omega
+
+theorem mkFields_append (src : List Str) (s : Nat) (a b : List Nat) :
+    mkFields src s (a ++ b) = mkFields src s a ++ mkFields src (s + total a) b := by
+  induction a generalizing s with
+  | nil => simp [mkFields, total]
+  | cons c cs ih =>
+    simp only [List.cons_append, mkFields, total, ih]
+    congr 3; omega
+
+theorem declStarts_append (src : List Str) (s : Nat) (a b : List Nat) :
+    declStarts src s (a ++ b) ↔ declStarts src s a ∧ declStarts src (s + total a) b := by
+  induction a generalizing s with
+  | nil => simp [declStarts, total]
+  | cons c cs ih =>
+    simp only [List.cons_append, declStarts, total, ih, and_assoc]
+    have : s + c + 1 + total cs = s + (c + 1 + total cs) := by omega
+    rw [this]
+
+theorem conts_succ (src : List Str) (n cnt : Nat) :
+    conts src n (cnt + 1) = conts src n cnt ++ [⟨n + 1 + cnt, rstrip (lineAt src (n + 1 + cnt))⟩] := by
+  simp [conts, List.range_succ]
+
+theorem fromLine_eq (src : List Str) (k : Nat) : fromLine ⟨k, lineAt src k⟩ = mkField src k 0 := by
+  simp [fromLine, mkField, conts, normName, declValue]
+
+theorem addLine_mkField (src : List Str) (done : List Fld) (n cnt : Nat) :
+    addLine (done, mkField src n cnt) ⟨n + 1 + cnt, rstrip (lineAt src (n + 1 + cnt))⟩ = (done, mkField src n (cnt + 1)) := by
+  simp [addLine, mkField, conts_succ]
+
+/-! ### rstripLines -/
+
+theorem rstripLines_prefix (ls : List NL) : ∃ t, ls = rstripLines ls ++ t := by
+  induction ls with
+  | nil => exact ⟨[], rfl⟩
+  | cons l ls ih =>
+    obtain ⟨t, ht⟩ := ih
+    simp only [rstripLines]
+    cases hr : rstripLines ls with
+    | nil =>
+      by_cases hb : isBlank l.val = true
+      · exact ⟨l :: ls, by simp [hb]⟩
+      · refine ⟨ls, by simp [hb]⟩
+    | cons r rs =>
+      rw [hr] at ht
+      exact ⟨t, by simp; exact ht⟩
+
+theorem rstripLines_mem_or_blank (ls : List NL) : ∀ l ∈ ls, l ∈ rstripLines ls ∨ isBlank l.val = true := by
+  induction ls with
+  | nil => intro l hl; cases hl
+  | cons a as ih =>
+    intro l hl
+    simp only [rstripLines]
+    cases hr : rstripLines as with
+    | nil =>
+      rcases List.mem_cons.mp hl with rfl | hl
+      · by_cases hb : isBlank l.val = true
+        · exact Or.inr hb
+        · simp [hb]
+      · have := ih l hl
+        rw [hr] at this
+        rcases this with h | h
+        · cases h
+        · exact Or.inr h
+    | cons r rs =>
+      rcases List.mem_cons.mp hl with rfl | hl
+      · simp
+      · have := ih l hl
+        rw [hr] at this
+        rcases this with h | h
+        · exact Or.inl (List.mem_cons_of_mem _ h)
+        · exact Or.inr h
+
+theorem consecutive_prefix (xs ys : List Nat) (h : consecutive (xs ++ ys) = true) : consecutive xs = true := by
+  induction xs with
+  | nil => rfl
+  | cons a as ih =>
+    cases as with
+    | nil => rfl
+    | cons b bs =>
+      simp only [List.cons_append, consecutive, Bool.and_eq_true] at h ⊢
+      exact ⟨h.1, ih h.2⟩
+
+theorem consecutive_range' (n m : Nat) : consecutive (List.range' n m) = true := by
+  induction m generalizing n with
+  | zero => rfl
+  | succ m ih =>
+    cases m with
+    | zero => rfl
+    | succ m =>
+      have := ih (n + 1)
+      simp only [List.range'_succ] at this ⊢
+      simp [consecutive, this]
+
+theorem conts_nums (src : List Str) (n cnt : Nat) : (conts src n cnt).map (·.num) = List.range' (n + 1) cnt := by
+  induction cnt with
+  | zero => simp [conts]
+  | succ c ih => rw [conts_succ, List.map_append, ih, List.range'_concat]; simp
+
+/-! ### one cleaned field -/
+
+def obsF (f : Fld) : FieldObs := (f.name, f.lines.map fun l => (l.num, l.val))
+
+def droppable (src : List Str) (n : Nat) : Prop :=
+  isBlank (lineAt src n) = true ∨ (isDecl (lineAt src n) = true ∧ (declValue (lineAt src n)).isEmpty = true)
+
+theorem strip_blank_nil (y : Str) (h : isBlank (strip y) = true) : strip y = [] := by
+  have := (rstrip_eq_nil_iff (strip y)).mpr h
+  unfold strip at this ⊢
+  rw [rstrip_idem] at this
+  exact this
+
+theorem blank_of_rstrip_blank (y : Str) (h : isBlank (rstrip y) = true) : isBlank y = true := by
+  cases hb : isBlank y with
+  | true => rfl
+  | false => rw [isBlank_rstrip hb] at h; cases h
+
+/-- the lines of the field declared at line `n` with `cnt` continuation lines, after trailing blank
+lines are dropped -/
+def cleanedLines (src : List Str) (n cnt : Nat) : List NL := rstripLines (mkField src n cnt).lines
+
+theorem cleaned_ownText (src : List Str) (n cnt : Nat) (hd : isDecl (lineAt src n) = true) :
+    fieldOwnText src (normName (lineAt src n), (cleanedLines src n cnt).map fun l => (l.num, l.val)) = true := by
+  obtain ⟨t, ht⟩ := rstripLines_prefix (mkField src n cnt).lines
+  unfold cleanedLines
+  cases hc : rstripLines (mkField src n cnt).lines with
+  | nil => rfl
+  | cons a as =>
+    rw [hc] at ht
+    simp only [mkField, List.cons_append, List.cons.injEq] at ht
+    obtain ⟨ha, has⟩ := ht
+    subst ha
+    simp only [List.map_cons, fieldOwnText, declaration, hd, Bool.true_and, beq_self_eq_true, List.all_eq_true,
+      List.mem_map, Bool.and_eq_true, true_and]
+    rintro ⟨m, w⟩ ⟨l, hl, hlw⟩
+    have : l ∈ conts src n cnt := by rw [has]; exact List.mem_append_left _ hl
+    simp only [conts, List.mem_map, List.mem_range] at this
+    obtain ⟨i, _, rfl⟩ := this
+    simp only [Prod.mk.injEq] at hlw
+    obtain ⟨rfl, rfl⟩ := hlw
+    simp
+
+theorem mkField_nums (src : List Str) (n cnt : Nat) :
+    (mkField src n cnt).lines.map (·.num) = List.range' n (cnt + 1) := by
+  simp only [mkField, List.map_cons, conts_nums]
+  rw [List.range'_succ]
+
+theorem cleaned_consecutive (src : List Str) (n cnt : Nat) :
+    consecutive ((cleanedLines src n cnt).map (·.num)) = true := by
+  obtain ⟨t, ht⟩ := rstripLines_prefix (mkField src n cnt).lines
+  have h := consecutive_range' n (cnt + 1)
+  rw [← mkField_nums src n cnt, ht, List.map_append] at h
+  exact consecutive_prefix _ _ h
+
+theorem cleaned_range (src : List Str) (n cnt : Nat) :
+    ∀ m ∈ (cleanedLines src n cnt).map (·.num), n ≤ m ∧ m ≤ n + cnt := by
+  intro m hm
+  have hsub : ((cleanedLines src n cnt).map (·.num)).Sublist ((mkField src n cnt).lines.map (·.num)) :=
+    (rstripLines_sublist _).map _
+  have := hsub.subset hm
+  rw [mkField_nums] at this
+  simp only [List.mem_range'_1] at this
+  omega
+
+theorem cleaned_cover (src : List Str) (n cnt : Nat) (hd : isDecl (lineAt src n) = true) :
+    ∀ m, n ≤ m → m ≤ n + cnt → m ∈ (cleanedLines src n cnt).map (·.num) ∨ droppable src m := by
+  intro m h1 h2
+  by_cases hm : m = n
+  · subst hm
+    have hmem : (⟨m, declValue (lineAt src m)⟩ : NL) ∈ (mkField src m cnt).lines := by simp [mkField]
+    rcases rstripLines_mem_or_blank _ _ hmem with h | h
+    · exact Or.inl (List.mem_map.mpr ⟨_, h, rfl⟩)
+    · right; right
+      refine ⟨hd, ?_⟩
+      have : declValue (lineAt src m) = [] := by
+        unfold declValue at h ⊢
+        exact strip_blank_nil _ h
+      simp [this]
+  · obtain ⟨i, rfl⟩ : ∃ i, m = n + 1 + i := ⟨m - n - 1, by omega⟩
+    have hi : i < cnt := by omega
+    have hmem : (⟨n + 1 + i, rstrip (lineAt src (n + 1 + i))⟩ : NL) ∈ (mkField src n cnt).lines := by
+      simp only [mkField, List.mem_cons, conts, List.mem_map, List.mem_range]
+      exact Or.inr ⟨i, hi, rfl⟩
+    rcases rstripLines_mem_or_blank _ _ hmem with h | h
+    · exact Or.inl (List.mem_map.mpr ⟨_, h, rfl⟩)
+    · exact Or.inr (Or.inl (blank_of_rstrip_blank _ h))
+
+
+/-! ### one cleaned paragraph -/
+
+def obsG (g : List Fld) : List FieldObs := g.map obsF
+
+theorem obsOf_eq (ps : List (List Fld)) : obsOf ps = ps.map obsG := rfl
+
+theorem clean_mkFields_cons (src : List Str) (s c : Nat) (cs : List Nat) :
+    clean (mkFields src s (c :: cs)) =
+      ⟨normName (lineAt src s), cleanedLines src s c⟩ :: clean (mkFields src (s + c + 1) cs) := by
+  simp [clean, mkFields, cleanedLines, mkField]
+
+theorem group_fields (src : List Str) (s : Nat) (cnts : List Nat) (hd : declStarts src s cnts) :
+    ∀ f ∈ obsG (clean (mkFields src s cnts)),
+      fieldOwnText src f = true ∧ consecutive (f.2.map (·.1)) = true := by
+  induction cnts generalizing s with
+  | nil => intro f hf; simp [mkFields, clean, obsG] at hf
+  | cons c cs ih =>
+    intro f hf
+    rw [clean_mkFields_cons] at hf
+    simp only [obsG, List.map_cons, List.mem_cons] at hf
+    rcases hf with rfl | hf
+    · refine ⟨cleaned_ownText src s c hd.1, ?_⟩
+      simp only [obsF, List.map_map]
+      exact cleaned_consecutive src s c
+    · exact ih (s + c + 1) hd.2 f hf
+
+theorem paraNums_cons (f : FieldObs) (g : List FieldObs) : paraNums (f :: g) = f.2.map (·.1) ++ paraNums g := by
+  simp [paraNums]
+
+theorem group_range (src : List Str) (s : Nat) (cnts : List Nat) :
+    ∀ m ∈ paraNums (obsG (clean (mkFields src s cnts))), s ≤ m ∧ m < s + total cnts := by
+  induction cnts generalizing s with
+  | nil => intro m hm; simp [mkFields, clean, obsG, paraNums] at hm
+  | cons c cs ih =>
+    intro m hm
+    rw [clean_mkFields_cons] at hm
+    simp only [obsG, List.map_cons, paraNums_cons, List.mem_append] at hm
+    rcases hm with hm | hm
+    · simp only [obsF, List.map_map] at hm
+      have := cleaned_range src s c m (by simpa [Function.comp] using hm)
+      simp only [total]; omega
+    · have := ih (s + c + 1) m hm
+      simp only [total]; omega
+
+theorem group_cover (src : List Str) (s : Nat) (cnts : List Nat) (hd : declStarts src s cnts) :
+    ∀ m, s ≤ m → m < s + total cnts → m ∈ paraNums (obsG (clean (mkFields src s cnts))) ∨ droppable src m := by
+  induction cnts generalizing s with
+  | nil => intro m h1 h2; simp [total] at h2; omega
+  | cons c cs ih =>
+    intro m h1 h2
+    rw [clean_mkFields_cons]
+    simp only [obsG, List.map_cons, paraNums_cons, List.mem_append]
+    by_cases hm : m ≤ s + c
+    · rcases cleaned_cover src s c hd.1 m h1 hm with h | h
+      · left; left
+        simp only [obsF, List.map_map]
+        simpa [Function.comp] using h
+      · exact Or.inr h
+    · simp only [total] at h2
+      rcases ih (s + c + 1) hd.2 m (by omega) (by omega) with h | h
+      · exact Or.inl (Or.inr h)
+      · exact Or.inr h
+
+theorem group_nonempty (src : List Str) (s : Nat) (cnts : List Nat) (h : cnts ≠ []) :
+    obsG (clean (mkFields src s cnts)) ≠ [] := by
+  cases cnts with
+  | nil => exact absurd rfl h
+  | cons c cs => rw [clean_mkFields_cons]; simp [obsG]
+
+
+/-! ### invariants of the accumulated output -/
+
+def pairOK (src : List Str) (p q : List FieldObs) : Bool :=
+  isSynthetic src p || isSynthetic src q ||
+    (match (paraNums p).getLast?, (paraNums q).head? with
+     | some a, some b => (List.range (b - a - 1)).any fun k => isBlank (lineAt src (a + 1 + k))
+     | _, _ => true)
+
+theorem separated_cons2 (src : List Str) (p q : List FieldObs) (rest : List (List FieldObs)) :
+    separated src (p :: q :: rest) = (pairOK src p q && separated src (q :: rest)) := by
+  simp only [separated, pairOK]
+  rfl
+
+theorem separated_snoc (src : List Str) (xs : List (List FieldObs)) (q : List FieldObs) :
+    separated src (xs ++ [q]) =
+      (separated src xs && (match xs.getLast? with | none => true | some p => pairOK src p q)) := by
+  induction xs with
+  | nil => simp [separated]
+  | cons a as ih =>
+    cases as with
+    | nil => simp [separated_cons2, separated]
+    | cons b bs =>
+      have e1 : (a :: b :: bs) ++ [q] = a :: b :: (bs ++ [q]) := rfl
+      rw [e1, separated_cons2, separated_cons2]
+      have : b :: (bs ++ [q]) = (b :: bs) ++ [q] := rfl
+      rw [this, ih]
+      simp [List.getLast?_cons_cons, Bool.and_assoc]
+
+theorem allNums_append (a b : Obs) : allNums (a ++ b) = allNums a ++ allNums b := by
+  simp [allNums]
+
+theorem allNums_single (g : List FieldObs) : allNums [g] = paraNums g := by
+  simp [allNums, paraNums]
+
+def GroupsOK (src : List Str) (o : Obs) : Prop :=
+  ∀ g ∈ o, g ≠ [] ∧ (∀ f ∈ g, consecutive (f.2.map (·.1)) = true) ∧
+    (isSynthetic src g = true ∨ ∀ f ∈ g, fieldOwnText src f = true)
+
+def Core (src : List Str) (o : Obs) (B : Nat) : Prop :=
+  GroupsOK src o ∧ separated src o = true ∧ (∀ n ∈ allNums o, n < B) ∧
+    (∀ n, 1 ≤ n → n < B → n ∈ allNums o ∨ droppable src n)
+
+def PSep (src : List Str) (o : Obs) (B : Nat) : Prop :=
+  match o.getLast? with
+  | none => True
+  | some p => isSynthetic src p = true ∨
+      ∀ a, (paraNums p).getLast? = some a → ∃ b, a < b ∧ b < B ∧ isBlank (lineAt src b) = true
+
+theorem core_drop (src : List Str) (o : Obs) (B : Nat) (h : Core src o B) (hd : droppable src B) :
+    Core src o (B + 1) := by
+  obtain ⟨h1, h2, h3, h4⟩ := h
+  refine ⟨h1, h2, fun n hn => Nat.lt_succ_of_lt (h3 n hn), ?_⟩
+  intro n hn1 hn2
+  by_cases e : n = B
+  · subst e; exact Or.inr hd
+  · exact h4 n hn1 (by omega)
+
+theorem psep_mono (src : List Str) (o : Obs) (B B' : Nat) (h : PSep src o B) (hb : B ≤ B') : PSep src o B' := by
+  unfold PSep at h ⊢
+  cases hl : o.getLast? with
+  | none => trivial
+  | some p =>
+    rw [hl] at h
+    rcases h with h | h
+    · exact Or.inl h
+    · right; intro a ha
+      obtain ⟨b, h1, h2, h3⟩ := h a ha
+      exact ⟨b, h1, by omega, h3⟩
+
+theorem mem_getLast? {α} {l : List α} {a : α} (h : l.getLast? = some a) : a ∈ l := by
+  exact List.mem_of_getLast? h
+
+theorem psep_of_blank (src : List Str) (o : Obs) (B : Nat) (h : Core src o B)
+    (hb : isBlank (lineAt src B) = true) : PSep src o (B + 1) := by
+  unfold PSep
+  cases hl : o.getLast? with
+  | none => trivial
+  | some p =>
+    right; intro a ha
+    have hp : p ∈ o := mem_getLast? hl
+    have : a ∈ allNums o := by
+      simp only [allNums, List.mem_flatMap]
+      have ha' : a ∈ paraNums p := mem_getLast? ha
+      simp only [paraNums, List.mem_flatMap] at ha'
+      obtain ⟨f, hf, haf⟩ := ha'
+      exact ⟨p, hp, f, hf, haf⟩
+    exact ⟨B, h.2.2.1 a this, by omega, hb⟩
+
+
+theorem pairOK_of_psep (src : List Str) (p q : List FieldObs) (s : Nat)
+    (hp : isSynthetic src p = true ∨
+      ∀ a, (paraNums p).getLast? = some a → ∃ b, a < b ∧ b < s ∧ isBlank (lineAt src b) = true)
+    (hq : ∀ m ∈ paraNums q, s ≤ m) : pairOK src p q = true := by
+  unfold pairOK
+  rcases hp with hp | hp
+  · simp [hp]
+  · cases ha : (paraNums p).getLast? with
+    | none => simp
+    | some a =>
+      cases hb : (paraNums q).head? with
+      | none => simp
+      | some b' =>
+        obtain ⟨b, h1, h2, h3⟩ := hp a ha
+        have hb' : s ≤ b' := hq b' (List.mem_of_head? hb)
+        simp only [Bool.or_eq_true, List.any_eq_true, List.mem_range]
+        right
+        refine ⟨b - a - 1, by omega, ?_⟩
+        have : a + 1 + (b - a - 1) = b := by omega
+        rw [this]; exact h3
+
+theorem core_emit (src : List Str) (o : Obs) (s : Nat) (cnts : List Nat) (h : Core src o s) (hp : PSep src o s)
+    (hne : cnts ≠ []) (hd : declStarts src s cnts) :
+    Core src (o ++ [obsG (clean (mkFields src s cnts))]) (s + total cnts) := by
+  obtain ⟨h1, h2, h3, h4⟩ := h
+  have hq := group_fields src s cnts hd
+  have hr := group_range src s cnts
+  refine ⟨?_, ?_, ?_, ?_⟩
+  · intro g hg
+    simp only [List.mem_append, List.mem_singleton] at hg
+    rcases hg with hg | rfl
+    · exact h1 g hg
+    · exact ⟨group_nonempty src s cnts hne, fun f hf => (hq f hf).2, Or.inr fun f hf => (hq f hf).1⟩
+  · rw [separated_snoc, h2]
+    simp only [Bool.true_and]
+    unfold PSep at hp
+    cases hl : o.getLast? with
+    | none => rfl
+    | some p =>
+      rw [hl] at hp
+      exact pairOK_of_psep src p _ s hp (fun m hm => (hr m hm).1)
+  · intro n hn
+    rw [allNums_append, allNums_single, List.mem_append] at hn
+    rcases hn with hn | hn
+    · have := h3 n hn; omega
+    · exact (hr n hn).2
+  · intro n hn1 hn2
+    rw [allNums_append, allNums_single, List.mem_append]
+    by_cases hs : n < s
+    · rcases h4 n hn1 hs with h | h
+      · exact Or.inl (Or.inl h)
+      · exact Or.inr h
+    · rcases group_cover src s cnts hd n (by omega) hn2 with h | h
+      · exact Or.inl (Or.inr h)
+      · exact Or.inr h
+
+def synth (src : List Str) (e : Nat) : List FieldObs := [(unknownName, [(e, lineAt src e)])]
+
+theorem synth_isSynthetic (src : List Str) (e : Nat) (hnb : isBlank (lineAt src e) = false)
+    (hnd : isDecl (lineAt src e) = false) : isSynthetic src (synth src e) = true := by
+  simp [synth, isSynthetic, declaration, hnb, hnd]
+
+theorem core_synth (src : List Str) (o : Obs) (e : Nat) (h : Core src o e)
+    (hnb : isBlank (lineAt src e) = false) (hnd : isDecl (lineAt src e) = false) :
+    Core src (o ++ [synth src e]) (e + 1) ∧ ∀ B, PSep src (o ++ [synth src e]) B := by
+  obtain ⟨h1, h2, h3, h4⟩ := h
+  have hs := synth_isSynthetic src e hnb hnd
+  refine ⟨⟨?_, ?_, ?_, ?_⟩, ?_⟩
+  · intro g hg
+    simp only [List.mem_append, List.mem_singleton] at hg
+    rcases hg with hg | rfl
+    · exact h1 g hg
+    · refine ⟨by simp [synth], ?_, Or.inl hs⟩
+      intro f hf
+      simp only [synth, List.mem_singleton] at hf
+      subst hf; rfl
+  · rw [separated_snoc, h2]
+    cases o.getLast? with
+    | none => rfl
+    | some p => simp [pairOK, hs]
+  · intro n hn
+    rw [allNums_append, allNums_single, List.mem_append] at hn
+    rcases hn with hn | hn
+    · have := h3 n hn; omega
+    · simp [synth, paraNums] at hn; omega
+  · intro n hn1 hn2
+    rw [allNums_append, allNums_single, List.mem_append]
+    by_cases hs' : n < e
+    · rcases h4 n hn1 hs' with h | h
+      · exact Or.inl (Or.inl h)
+      · exact Or.inr h
+    · have : n = e := by omega
+      subst this
+      exact Or.inl (Or.inr (by simp [synth, paraNums]))
+  · intro B
+    unfold PSep
+    simp [hs]
+
+
+/-! ### the loop -/
+
+inductive AS where
+  | none
+  | opn (s : Nat) (init : List Nat) (c : Nat)
+
+def conc (src : List Str) : AS → St
+  | .none => Option.none
+  | .opn s init c => some (mkFields src s init, mkField src (s + total init) c)
+
+def InvS (src : List Str) (o : Obs) (k : Nat) : AS → Prop
+  | .none => Core src o k ∧ PSep src o k
+  | .opn s init c => Core src o s ∧ PSep src o s ∧ declStarts src s (init ++ [c]) ∧ 1 ≤ s ∧ k = s + total init + c + 1
+
+def Final (src : List Str) (o : Obs) : Prop :=
+  GroupsOK src o ∧ separated src o = true ∧ ∀ n, 1 ≤ n → n ≤ src.length → n ∈ allNums o ∨ droppable src n
+
+theorem lineAt_pre (pre rest : List Str) (l : Str) : lineAt (pre ++ l :: rest) (pre.length + 1) = l := by
+  simp [lineAt]
+
+theorem obsOf_append (a b : List (List Fld)) : obsOf (a ++ b) = obsOf a ++ obsOf b := by
+  simp [obsOf]
+
+theorem obsOf_single (g : List Fld) : obsOf [g] = [obsG g] := rfl
+
+theorem flush_opn (src : List Str) (s : Nat) (init : List Nat) (c : Nat) :
+    flush (conc src (.opn s init c)) = [clean (mkFields src s (init ++ [c]))] := by
+  simp [conc, flush, mkFields_append, mkFields]
+
+theorem total_snoc (init : List Nat) (c : Nat) : total (init ++ [c]) = total init + c + 1 := by
+  rw [total_append]; simp [total]; omega
+
+theorem declStarts_last_irrel (src : List Str) (s : Nat) (init : List Nat) (c c' : Nat) :
+    declStarts src s (init ++ [c]) → declStarts src s (init ++ [c']) := by
+  rw [declStarts_append, declStarts_append]
+  simp [declStarts]
+
+/-- flushing an open paragraph at line `k` -/
+theorem emit_opn (src : List Str) (acc : List (List Fld)) (s : Nat) (init : List Nat) (c k : Nat)
+    (h : InvS src (obsOf acc) k (.opn s init c)) :
+    Core src (obsOf (acc ++ flush (conc src (.opn s init c)))) k := by
+  obtain ⟨h1, h2, h3, h4, h5⟩ := h
+  rw [flush_opn, obsOf_append, obsOf_single]
+  have := core_emit src (obsOf acc) s (init ++ [c]) h1 h2 (by simp) h3
+  rw [total_snoc] at this
+  rw [h5]
+  have e : s + total init + c + 1 = s + (total init + c + 1) := by omega
+  rw [e]; exact this
+
+
+theorem go_final (src : List Str) (rest pre : List Str) (hsrc : src = pre ++ rest)
+    (acc : List (List Fld)) (a : AS) (hinv : InvS src (obsOf acc) (pre.length + 1) a) :
+    Final src (obsOf (acc ++ go (conc src a) (numberFrom (pre.length + 1) rest))) := by
+  induction rest generalizing pre acc a with
+  | nil =>
+    have hlen : src.length = pre.length := by rw [hsrc]; simp
+    simp only [numberFrom, go]
+    cases a with
+    | none =>
+      obtain ⟨⟨h1, h2, _, h4⟩, _⟩ := hinv
+      simp only [conc, flush, List.append_nil]
+      exact ⟨h1, h2, fun n hn1 hn2 => h4 n hn1 (by omega)⟩
+    | opn s init c =>
+      obtain ⟨h1, h2, _, h4⟩ := emit_opn src acc s init c _ hinv
+      exact ⟨h1, h2, fun n hn1 hn2 => h4 n hn1 (by omega)⟩
+  | cons l rest ih =>
+    have hL : lineAt src (pre.length + 1) = l := by rw [hsrc]; exact lineAt_pre pre rest l
+    have hsrc' : src = (pre ++ [l]) ++ rest := by rw [hsrc]; simp
+    have hlen' : (pre ++ [l]).length + 1 = pre.length + 1 + 1 := by simp
+    -- the recursive call, for any accumulated output and abstract state at line k + 1
+    have recur := fun acc' a' (h : InvS src (obsOf acc') (pre.length + 1 + 1) a') => by
+      have := ih (pre ++ [l]) hsrc' acc' a' (by rw [hlen']; exact h)
+      rw [hlen'] at this
+      exact this
+    simp only [numberFrom]
+    -- flush the state (if any), then continue from `none` after a blank line
+    have flushBlank : isBlank l = true →
+        Final src (obsOf (acc ++ (flush (conc src a) ++ go Option.none (numberFrom (pre.length + 1 + 1) rest)))) := by
+      intro hb
+      rw [← List.append_assoc]
+      have hbl : isBlank (lineAt src (pre.length + 1)) = true := by rw [hL]; exact hb
+      cases a with
+      | none =>
+        obtain ⟨hc, hp⟩ := hinv
+        simp only [conc, flush, List.append_nil]
+        exact recur acc .none ⟨core_drop src _ _ hc (Or.inl hbl), psep_mono src _ _ _ hp (by omega)⟩
+      | opn s init c =>
+        have hc := emit_opn src acc s init c _ hinv
+        exact recur _ .none ⟨core_drop src _ _ hc (Or.inl hbl), psep_of_blank src _ _ hc hbl⟩
+    -- append the current line to the open field
+    have absorb : ∀ s init c, a = .opn s init c →
+        Final src (obsOf (acc ++ go (some (addLine (mkFields src s init, mkField src (s + total init) c)
+          ⟨pre.length + 1, rstrip l⟩)) (numberFrom (pre.length + 1 + 1) rest))) := by
+      intro s init c ha
+      subst ha
+      obtain ⟨h1, h2, h3, h4, h5⟩ := hinv
+      have e : (⟨pre.length + 1, rstrip l⟩ : NL) =
+          ⟨s + total init + 1 + c, rstrip (lineAt src (s + total init + 1 + c))⟩ := by
+        have : s + total init + 1 + c = pre.length + 1 := by omega
+        rw [this, hL]
+      rw [e, addLine_mkField]
+      exact recur acc (.opn s init (c + 1)) ⟨h1, h2, declStarts_last_irrel src s init c (c + 1) h3, h4, by omega⟩
+    unfold go
+    split
+    · -- a blank line
+      rename_i hb
+      cases a with
+      | none => simpa [conc] using flushBlank hb
+      | opn s init c =>
+        simp only [conc]
+        cases rest with
+        | nil => simpa [conc, numberFrom] using flushBlank hb
+        | cons n rest' =>
+          simp only [numberFrom]
+          split
+          · exact absorb s init c rfl
+          · simpa [conc, numberFrom] using flushBlank hb
+    · rename_i hnb
+      have hnb' : isBlank l = false := by simpa using hnb
+      have hnbL : isBlank (lineAt src (pre.length + 1)) = false := by rw [hL]; exact hnb'
+      cases a with
+      | opn s init c =>
+        simp only [conc]
+        split
+        · exact absorb s init c rfl
+        · split
+          · -- a new declaration inside the paragraph
+            rename_i hd
+            obtain ⟨h1, h2, h3, h4, h5⟩ := hinv
+            have hfl : fromLine ⟨pre.length + 1, l⟩ = mkField src (pre.length + 1) 0 := by
+              rw [← hL]; exact fromLine_eq src _
+            have hm : mkFields src s init ++ [mkField src (s + total init) c] = mkFields src s (init ++ [c]) := by
+              simp [mkFields_append, mkFields]
+            have hk : pre.length + 1 = s + total (init ++ [c]) := by rw [total_snoc]; omega
+            simp only [hfl, hm]
+            have hds : declStarts src s ((init ++ [c]) ++ [0]) := by
+              rw [declStarts_append]
+              refine ⟨h3, ?_⟩
+              simp only [declStarts, and_true]
+              rw [← hk, hL]; exact hd
+            have := recur acc (.opn s (init ++ [c]) 0) ⟨h1, h2, hds, h4, by rw [total_snoc]; omega⟩
+            simp only [conc] at this
+            rw [← hk] at this
+            exact this
+          · -- an unparsable line closes the paragraph and stands alone
+            rename_i hnc hnd
+            have hndL : isDecl (lineAt src (pre.length + 1)) = false := by rw [hL]; simpa using hnd
+            have hc := emit_opn src acc s init c _ hinv
+            obtain ⟨hc', hp'⟩ := core_synth src _ _ hc hnbL hndL
+            have := recur (acc ++ flush (conc src (.opn s init c)) ++ [[⟨unknownName, [⟨pre.length + 1, l⟩]⟩]]) .none
+              ⟨by rw [obsOf_append, obsOf_single]; simpa [obsG, obsF, synth, hL] using hc',
+               by rw [obsOf_append, obsOf_single]; simpa [obsG, obsF, synth, hL] using hp' _⟩
+            simpa [conc, List.append_assoc] using this
+      | none =>
+        obtain ⟨hc, hp⟩ := hinv
+        simp only [conc]
+        split
+        · -- a declaration opens a paragraph
+          rename_i hd
+          have hfl : fromLine ⟨pre.length + 1, l⟩ = mkField src (pre.length + 1) 0 := by
+            rw [← hL]; exact fromLine_eq src _
+          rw [hfl]
+          have := recur acc (.opn (pre.length + 1) [] 0)
+            ⟨hc, hp, by simp only [List.nil_append, declStarts, and_true]; rw [hL]; exact hd, by omega, by simp [total]⟩
+          simpa [conc, mkFields, total] using this
+        · rename_i hnd
+          have hndL : isDecl (lineAt src (pre.length + 1)) = false := by rw [hL]; simpa using hnd
+          obtain ⟨hc', hp'⟩ := core_synth src _ _ hc hnbL hndL
+          have := recur (acc ++ [[⟨unknownName, [⟨pre.length + 1, l⟩]⟩]]) .none
+            ⟨by rw [obsOf_append, obsOf_single]; simpa [obsG, obsF, synth, hL] using hc',
+             by rw [obsOf_append, obsOf_single]; simpa [obsG, obsF, synth, hL] using hp' _⟩
+          simpa [conc, List.append_assoc] using this
+
+
+theorem strictlyIncreasing_of_pairwise (l : List Nat) (h : l.Pairwise (· < ·)) : strictlyIncreasing l = true := by
+  induction l with
+  | nil => rfl
+  | cons a as ih =>
+    cases as with
+    | nil => rfl
+    | cons b bs =>
+      have h' := List.pairwise_cons.mp h
+      simp only [strictlyIncreasing, Bool.and_eq_true, decide_eq_true_eq]
+      exact ⟨h'.1 b (by simp), ih h'.2⟩
+
+/-- **C05, all clauses** — for every text, the model of `get_paragraphs_as_field_groups` satisfies the
+whole property: every source line is reported at most once under its true 1-based number (lines end
+at LF, CRLF, CR only), numbers increase strictly over the result and are contiguous inside a field,
+every reported line carries its own text (declaration minus `Name:` and surrounding blanks under the
+normalised name; continuation minus trailing blanks; an unparsable line verbatim as a one-line
+`unknown` paragraph), the only unreported lines are blank lines and value-less declarations, and
+consecutive paragraphs are separated by an unreported blank line or one of them is an unparsable line. -/
+theorem sound (t : Str) : holdsOn t (model t) = true := by
+  have hfin : Final (srcLines t) (model t) := by
+    have := go_final (srcLines t) (srcLines t) [] rfl [] .none
+      ⟨⟨(fun g hg => by cases hg), rfl, (fun n hn => by cases hn),
+        (fun n h1 h2 => by simp at h2; omega)⟩, (by simp [PSep, obsOf])⟩
+    simpa [model, parse, linesFromText, srcLines, conc] using this
+  obtain ⟨hG, hS, hC⟩ := hfin
+  obtain ⟨hinc, hbound⟩ := numbers_increasing t
+  unfold holdsOn
+  simp only [Bool.and_eq_true, List.all_eq_true, decide_eq_true_eq, Bool.or_eq_true, Bool.not_eq_true',
+    List.mem_range, List.contains_iff_mem]
+  refine ⟨⟨⟨⟨⟨⟨strictlyIncreasing_of_pairwise _ hinc, ?_⟩, ?_⟩, ?_⟩, ?_⟩, hS⟩, ?_⟩
+  · intro n hn; exact hbound n hn
+  · intro g hg f hf; exact (hG g hg).2.1 f hf
+  · intro g hg
+    rcases (hG g hg).2.2 with h | h
+    · exact Or.inl h
+    · exact Or.inr h
+  · intro i hi
+    rcases hC (i + 1) (by omega) (by omega) with h | h
+    · exact Or.inl (Or.inl h)
+    · rcases h with h | h
+      · exact Or.inl (Or.inr (by simpa [lineAt] using h))
+      · exact Or.inr (by simpa [lineAt, declaration] using h)
+  · intro g hg
+    have := (hG g hg).1
+    cases g with
+    | nil => exact absurd rfl this
+    | cons _ _ => rfl
+
 
 end Props.C05
